@@ -2,6 +2,7 @@ SPECIFICATION MCSpec
 CONSTANTS
   MaxPop = 4
   LexPop = 3
+  PermCases = {3, 4}
   LexCases = 3
 INVARIANTS ResultSound NeverStuck Pressure TournamentExtremes TournamentLaw LexSurvives LexNeverDominated LexDegenerate LexAcceptsExact Emit
 CHECK_DEADLOCK FALSE
